@@ -134,10 +134,10 @@ def watched_history(out, root, lib):
     return n
 
 
-def end_to_end(out, hl_path, seed):
+def end_to_end(out, hl_path, seed, edge=True, watched=True):
     """real programs (GleamGen, seeded layouts with non-ASCII comments) through the real server: the decoded
     semanticTokens/full array must be the LSP projection of the analysis' highlight list; /range a sub-list"""
-    recs = [json.loads(l) for l in open(hl_path)] + edge_docs(seed)
+    recs = [json.loads(l) for l in open(hl_path)] + (edge_docs(seed) if edge else [])
     root = vlib.workdir("c19-e2e")
     open(os.path.join(root, "gleam.toml"), "w").write('name = "p"\nversion = "0.1.0"\n')
     os.makedirs(os.path.join(root, "src"))
@@ -184,7 +184,8 @@ def end_to_end(out, hl_path, seed):
                     out.report({"what": "range tokens not among the full tokens", "level": "server"}, {"text": r["text"], "got": sub, "full": exp})
       finally:
         sess.close()
-    n += watched_history(out, root, lib)
+    if watched:
+        n += watched_history(out, root, lib)
     shutil.rmtree(root, ignore_errors=True)
     return n
 
@@ -230,4 +231,27 @@ def run(out, tier, seed):
 
 
 def replay(out, path):
-    replay_cases(out, [json.load(open(path))["detail"]["case"]], 1)
+    rec = json.load(open(path))
+    d, f = rec["detail"], rec.get("features", {})
+    if f.get("history") == "watched files":
+        root = vlib.workdir("c19-replay-w")
+        open(os.path.join(root, "gleam.toml"), "w").write('name = "p"\nversion = "0.1.0"\n')
+        os.makedirs(os.path.join(root, "src"))
+        open(os.path.join(root, "src", "m2.gleam"), "w").write(scope_common_lib())
+        watched_history(out, root, scope_common_lib())
+    elif f.get("level") == "server" and "text" in d:
+        # an end-to-end mismatch: the same document through the real server again (every position-encoding offer)
+        hp = os.path.join(vlib.workdir("c19-replay-e2e"), "hl.ndjson")
+        with open(hp, "w") as o:
+            for _ in range(3):
+                o.write(json.dumps({"text": d["text"], "hl": hl_of(d["text"])}) + "\n")
+        end_to_end(out, hp, 1, edge=False, watched=False)
+    elif "case" in d and "doc" in d["case"]:
+        replay_cases(out, [d["case"]], 1)
+    elif "case" in d and "out" in d["case"] and "sigs" in d["case"]:
+        from checks import c09
+        c09.run_ty(out, [d["case"]], 1, "c19-replay", f.get("run", "main"), prop="C19")
+    elif "case" in d:
+        scope_common.replay_case(out, path, "C19")
+    else:
+        raise vlib.ToolError("do not know how to replay this record")
